@@ -19,6 +19,14 @@ CLAIMED = {
         "Minute pairs are a boundary-value subset of 1440^2 (00:00, 00:01, 01:00, 11:59, 12:00, 23:59); "
         "well-formed HH:MM strings only; TLC's evaluation of the spec is the oracle.",
         "6/C14"),
+    "C13": (
+        "TLA+ spec Rule.tla: TLC checks operational fold = declarative reading for every batch from every reachable state; "
+        "TLC-simulated configurations and batches replayed on a real instance with the real rule client, writes observed on p.*",
+        "The rule state machine is model-checked over all single-condition configurations and batches; generated "
+        "behaviours run against the real rule client inside a real instance (manager, store, bus) and every write it makes "
+        "is compared with the prediction after each batch.",
+        "Point-value conditions only (schedule windows are C14); real-time behaviour guarded by one slower re-run.",
+        "6/C13"),
     "C15": (
         "TLA+ spec Export.tla: TLC checks Import(Export(t)) = Live(t) modulo the id map for every tree of the model; sampled "
         "trees replayed through client.ExportNodes / ImportNodes on real instances and compared with the predicted tree",
